@@ -4,6 +4,7 @@ import FordModel.TypeSpec
 import FordModel.Mask
 import FordModel.Attribs
 import FordModel.TypeHead
+import FordModel.Entity
 namespace Ford
 open Proto Parse
 
@@ -162,6 +163,22 @@ def dispatchC01 : List Str → Option (List Str)
           match TypeHead.varRe s with
           | some (g1, g2) => some ["some".toList, g1, g2]
           | none => some ["none".toList]
+      | _ => some ["bad-args".toList]
+    else if cmd == "c01.entity".toList then
+      match args with
+      | [s] => some ["ok".toList, (Entity.mkVar s).name, (Entity.mkVar s).spec]
+      | _ => some ["bad-args".toList]
+    else if cmd == "c01.args".toList then
+      -- `c01.args <n> a1 .. an e1 .. em` : n dummy argument names, then the declared entities
+      match args with
+      | n :: rest =>
+        let k := (String.ofList n).toNat!
+        let r := Entity.cleanup (rest.take k) (rest.drop k)
+        some (["ok".toList, showNat r.1.length]
+          ++ r.1.flatMap (fun a => match a with
+                | .declared v => ["d".toList, v.name, v.spec]
+                | .implicit nm => ["i".toList, nm, []])
+          ++ r.2.flatMap (fun v => [v.name, v.spec]))
       | _ => some ["bad-args".toList]
     else none
   | [] => none
